@@ -26,6 +26,38 @@ def typeref(t):
     return t.__name__
 
 
+def range_info(r):
+    """a NamedRange described through its observable behaviour (membership, iteration, member names), not through its
+    private fields: [start, end) = the maximal interval around its first member that `in` accepts"""
+    first = next(iter(r))
+    start = int(first)
+    if start not in r:
+        raise ValueError(f"first member {start:#x} of {r!r} is not contained in it")
+    while (start - 1) in r:  # iteration must start at the lowest member; tolerate (and pin) anything else
+        start -= 1
+    hi, step = start, 1
+    while (hi + step) in r:
+        hi += step
+        step *= 2
+    lo_in, hi_out = hi, hi + step
+    while hi_out - lo_in > 1:
+        mid = (lo_in + hi_out) // 2
+        if mid in r:
+            lo_in = mid
+        else:
+            hi_out = mid
+    end = hi_out
+    name = str(getattr(first, "_name", ""))
+    base, sep, nibbles = getattr(r, "_basename", None), getattr(r, "_sep", None), getattr(r, "_index_nibbles", None)
+    if base is None or sep is None or nibbles is None:
+        digits = len(name) - len(name.rstrip("0123456789abcdef"))
+        nibbles = digits
+        sep = name[-digits - 1] if digits < len(name) else ""
+        base = name[: -digits - 1]
+    owner = getattr(r, "_type", None) or type(first)
+    return {"range": [start, end], "owner": owner.__name__, "base": base, "sep": sep, "nibbles": nibbles}
+
+
 def allowed_items(vv):
     """flatten a ValidValues into points / intervals with owner and name"""
     from tpmstream.spec.common.values import NamedRange
@@ -42,7 +74,7 @@ def _member_items(cls):
     items = []
     for attr in cls:  # IterableMeta.__iter__ -> class_iter
         if isinstance(attr, NamedRange):
-            items.append({"range": [attr._start, attr._end], "owner": attr._type.__name__, "base": attr._basename, "sep": attr._sep, "nibbles": attr._index_nibbles})
+            items.append(range_info(attr))
         else:
             items.append({"point": int(attr._value), "owner": type(attr).__name__, "name": attr._name})
     return items
@@ -60,7 +92,7 @@ def _item(v):
             return [{"point": x} for x in v]
         return [{"range": [v.start, v.stop]}]
     if isinstance(v, NamedRange):
-        return [{"range": [v._start, v._end], "owner": v._type.__name__, "base": v._basename, "sep": v._sep, "nibbles": v._index_nibbles}]
+        return [range_info(v)]
     if isinstance(v, type):
         return _member_items(v)
     if hasattr(v, "_name") and hasattr(v, "_value"):
